@@ -56,6 +56,10 @@ func Generate(genseed uint64, stream string, thorough bool) *Case {
 	}
 	// (twins and Mount are not combined: the wrappers' Mount path takes no per-digest lock)
 	remoteMount := stream == "remote" && genseed%3 == 0
+	wideRoot := -1
+	if stream == "contention" && genseed%3 != 0 {
+		wideRoot = addWideFan(r, g) // an index over 8..14 fresh image manifests: more runnable tasks than any K
+	}
 	var twinRoot, twinX int = -1, -1
 	twinTitled := false
 	if stream == "twinreach" {
@@ -92,6 +96,8 @@ func Generate(genseed uint64, stream string, thorough bool) *Case {
 		return best
 	}
 	switch {
+	case stream == "contention" && wideRoot >= 0:
+		c.Root = wideRoot
 	case stream == "contention":
 		c.Root = bigRoot()
 	case len(manifests) > 0 && r.Chance(7, 10):
@@ -122,9 +128,10 @@ func Generate(genseed uint64, stream string, thorough bool) *Case {
 		}
 	}
 
-	c.K = common.Pick(r, []int{1, 2, 3, 8, 0, -1})
+	c.K = common.Pick(r, []int{1, 2, 3, 4, 5, 6, 8, 0, -1})
 	if stream == "contention" {
-		c.K = common.Pick(r, []int{1, 2, 2, 3})
+		c.K = common.Pick(r, []int{1, 2, 2, 3, 4, 5, 6, 7, 8, 0, -1})
+		c.Slow = r.Chance(2, 3)
 	}
 	c.Mode = common.Pick(r, []string{"g", "g", "t", "t", "r"})
 	c.Src = common.Pick(r, []string{"mem", "mem", "oci", "ocire", "file"})
@@ -232,6 +239,25 @@ func Generate(genseed uint64, stream string, thorough bool) *Case {
 			c.Root = best
 		}
 		set = g.RandomClosedSubset(r, common.Pick(r, []int{0, 0, 10}))
+		if r.Chance(1, 4) { // a failing callback somewhere in the graphs that get copied
+			var ids []int
+			for _, rt := range g.Roots() {
+				if g.Reach(rt)[c.Root] {
+					for k := range g.Reach(rt) {
+						ids = append(ids, k)
+					}
+				}
+			}
+			sort.Ints(ids)
+			if len(ids) > 0 {
+				c.FailNode = common.Pick(r, ids)
+				if set[c.FailNode] {
+					c.FailCb = "skip"
+				} else {
+					c.FailCb = common.Pick(r, []string{"pre", "post"})
+				}
+			}
+		}
 	case "rootpresent":
 		// Copy whose root is already in the destination: {Tagger, ReferencePusher} x {OnCopySkipped nil, set}
 		c.Mode = common.Pick(r, []string{"t", "r"})
@@ -264,6 +290,25 @@ func Generate(genseed uint64, stream string, thorough bool) *Case {
 		c.Root = common.Pick(r, anc)
 		c.MapRoot, c.Platform = -1, ""
 		set = g.RandomClosedSubset(r, common.Pick(r, []int{0, 0, 10}))
+		if r.Chance(1, 4) { // a failing callback somewhere in the graphs that get copied
+			var ids []int
+			for _, rt := range g.Roots() {
+				if g.Reach(rt)[c.Root] {
+					for k := range g.Reach(rt) {
+						ids = append(ids, k)
+					}
+				}
+			}
+			sort.Ints(ids)
+			if len(ids) > 0 {
+				c.FailNode = common.Pick(r, ids)
+				if set[c.FailNode] {
+					c.FailCb = "skip"
+				} else {
+					c.FailCb = common.Pick(r, []string{"pre", "post"})
+				}
+			}
+		}
 		set[t] = true
 		// every twin blob of the graph is pre-populated (they are leaves, the set stays link-closed):
 		// a twin that is only reachable would be pushed during the copy and trigger the same defect
@@ -449,6 +494,36 @@ func addBlobTwin(r *common.Rand, g *dag.Graph) {
 		nd.Bytes, nd.Desc = bs, desc(ix.MediaType, bs)
 		g.Nodes = append(g.Nodes, nd)
 	}
+}
+
+// addWideFan appends 8..14 image manifests, each over its own fresh layer blob and a shared config, and an
+// index over all of them; returns the index.
+func addWideFan(r *common.Rand, g *dag.Graph) int {
+	desc := func(mt string, bs []byte) ocispec.Descriptor {
+		return ocispec.Descriptor{MediaType: mt, Digest: digest.FromBytes(bs), Size: int64(len(bs))}
+	}
+	cb := []byte(fmt.Sprintf("wide-config-%x", r.U64()))
+	cfg := &dag.Node{ID: len(g.Nodes), Kind: dag.KConfig, Bytes: cb, Desc: desc(ocispec.MediaTypeImageConfig, cb), Subject: -1, TwinOf: -1}
+	g.Nodes = append(g.Nodes, cfg)
+	ix := ocispec.Index{MediaType: ocispec.MediaTypeImageIndex}
+	ix.SchemaVersion = 2
+	var members []int
+	for i, w := 0, 8+r.Intn(7); i < w; i++ {
+		lb := []byte(fmt.Sprintf("wide-layer-%d-%x", i, r.U64()))
+		l := &dag.Node{ID: len(g.Nodes), Kind: dag.KBlob, Bytes: lb, Desc: desc(ocispec.MediaTypeImageLayer, lb), Subject: -1, TwinOf: -1}
+		g.Nodes = append(g.Nodes, l)
+		m := ocispec.Manifest{MediaType: ocispec.MediaTypeImageManifest, Config: cfg.Desc, Layers: []ocispec.Descriptor{l.Desc}}
+		m.SchemaVersion = 2
+		bs, _ := json.Marshal(m)
+		im := &dag.Node{ID: len(g.Nodes), Kind: dag.KImage, Subject: -1, TwinOf: -1, Succ: []int{cfg.ID, l.ID}, Bytes: bs, Desc: desc(m.MediaType, bs)}
+		g.Nodes = append(g.Nodes, im)
+		members = append(members, im.ID)
+		ix.Manifests = append(ix.Manifests, im.Desc)
+	}
+	bs, _ := json.Marshal(ix)
+	rt := &dag.Node{ID: len(g.Nodes), Kind: dag.KIndex, Subject: -1, TwinOf: -1, Succ: members, Bytes: bs, Desc: desc(ix.MediaType, bs)}
+	g.Nodes = append(g.Nodes, rt)
+	return rt.ID
 }
 
 // addPlatformImage appends a config blob that is a valid image config (architecture / os), mostly of the
